@@ -668,6 +668,16 @@ def fairness():
     t.append(T('fair_loop_body_diverges_after_answer', [('loop', [OP('conde', REL('never'), EQ(q, P(0)))])], 'covers', 3))
     t.append(T('fair_loop_body_infinite_and_finite', [('loop', [OP('conde', [('loop', [EQ(q, P(0))])], EQ(q, P(1)))])], 'covers', 8))
     t.append(T('fair_nested', [OP('conde', OP('conde', REL('never'), [REL('always'), EQ(q, P(0))]), EQ(q, P(1)))], 'covers', 6))
+
+    # balanced trees of silent divergers (2^d `never` leaves) next to a disjunction of infinite producers / finite goals:
+    # scheduling decisions that depend on the SHAPE of both mplus operands only show up with deep immature trees on both sides
+    def ntree(d):
+        return REL('never') if d == 0 else OP('conde', ntree(d - 1), ntree(d - 1))
+    for d in (2, 3):
+        two = OP('conde', [REL('always'), EQ(q, P(0))], [REL('always'), EQ(q, P(1))])
+        t.append(T('fair_nevertree%d_then_two_always' % d, [OP('conde', ntree(d), two)], 'covers', 6))
+        t.append(T('fair_two_always_then_nevertree%d' % d, [OP('conde', two, ntree(d))], 'covers', 6))
+        t.append(T('fair_nevertree%d_then_finite_pair' % d, [OP('conde', ntree(d), OP('conde', EQ(q, P(0)), [REL('always'), EQ(q, P(1))]))], 'covers', 4))
     return t
 
 
